@@ -2,7 +2,7 @@
    The command tables and accessor index sets are GENERATED from /repo's source on every run
    (Gen/CmdTables.v); the iterator theorems hold for every table, hence for the six generated ones. *)
 From Coq Require Import NArith List Bool.
-From LoraV Require Import Base.Bytes Model.Frame Model.MacCmd Gen.CmdTables Spec.L2Frame
+From LoraV Require Import Base.Bytes Model.Frame Model.MacCmd Gen.CmdTables Spec.L2Frame Spec.MacCmdSpec
   Proofs.MacCmdProofs Proofs.ParseProofs.
 Import ListNotations.
 Local Open Scope nat_scope.
@@ -63,3 +63,11 @@ Proof.
     destruct (Nat.eqb (length bs) 17) eqn:E1; [intros _; left; now apply PeanoNat.Nat.eqb_eq|].
     destruct (Nat.eqb (length bs) 33) eqn:E2; [intros _; right; now apply PeanoNat.Nat.eqb_eq|discriminate].
 Qed.
+
+(* the CIDs and payload lengths of the two MAC-command tables regenerated from the code are those of LoRaWAN 1.0.x section 5 (written
+   independently in Spec/MacCmdSpec.v): what the iterator treats as "one whole command" is what the specification defines *)
+Theorem C03_command_lengths_match_lorawan :
+  map (fun e => (fst (fst e), snd (fst e))) dl_mac_table = map (fun c => (fst (fst c), Some (snd (fst c)))) lw_mac_commands /\
+  map (fun e => (fst (fst e), snd (fst e))) ul_mac_table = map (fun c => (fst (fst c), Some (snd c))) lw_mac_commands.
+Proof. split; reflexivity. Qed.
+
